@@ -216,11 +216,12 @@ class Printer:
                 # statement (return / if / while / func) the grammar allows no blank BEFORE the ';'
                 prev = ss[i - 1][0]
                 seps = [";", "; ", ";\n", ";\n  "] + ([" ;  "] if prev not in ("ret", "if", "while", "func", "seq") else [])
-                # a line break alone separates statements too — LF or CR LF — after a statement that ends in a token which does not
-                # swallow the blanks behind it (a number or a name)
-                pv = ss[i - 1]
-                if s[0] in ("asg", "i", "var") and out[-1:].isdigit() and (pv[0] == "i" or (pv[0] == "asg" and pv[2][0] == "i")):
-                    seps += ["\n", "\r\n", " \r\n  "]
+                # a line break alone separates statements too — LF or CR LF, also behind a trailing comment — whatever token the statement
+                # before it ends in (a literal, a closing bracket and a ternary's branches take the blanks behind them, the line feed
+                # included: the separator is still there).  Not before a statement that would read as the continuation of the expression
+                # (a bracket, a sign, a dice letter)
+                if s[0] in ("asg", "i", "var") and prev not in ("seq", "ret") and t[:1] not in "dDkKqQaAcCbBpPfF([-+" and out[-1:] not in ("", "\n"):
+                    seps += ["\n", "\r\n", " \r\n  ", " // note\n", "  //x\r\n "]
                 out += self.r.choice(seps)
             out += t
         return out
